@@ -381,6 +381,26 @@ def _document_level(run: Run, vm, rule: str = "R08.6") -> None:
     run.instance(rule, vm.loc(vs.node), "an unparsable UNKNOWN_FIELDS value falls back to REJECT; a missing POLICY defaults to REJECT", ok=fb_ok and default_ok)
     if not (fb_ok and default_ok):
         run.violation(rule, vm, vs.qualname, "UNKNOWN_FIELDS fallback", f"invalid policy -> REJECT fallback present={fb_ok}; default REJECT present={default_ok}")
+    # the policy handed to _validate_unknown_fields comes from the schema only
+    pol_calls = [c for c in walk_no_nested(vs.node) if isinstance(c, ast.Call) and ast.unparse(c.func).endswith("_validate_unknown_fields")]
+    if len(pol_calls) != 1 or len(pol_calls[0].args) < 3 or not isinstance(pol_calls[0].args[2], ast.Name):
+        raise AnalysisError("_validate_section: call of _validate_unknown_fields(document_fields, schema_fields, <policy>, ...) not found")
+    pvar = pol_calls[0].args[2].id
+    for a in walk_no_nested(vs.node):
+        if isinstance(a, ast.Assign) and any(is_name(t, pvar) for t in a.targets):
+            v = a.value
+            in_handler = False
+            cur = getattr(a, "_parent", None)
+            while cur is not None and cur is not vs.node:
+                if isinstance(cur, ast.ExceptHandler):
+                    in_handler = True
+                cur = getattr(cur, "_parent", None)
+            from_schema = isinstance(v, ast.Call) and ast.unparse(v.func) == "UnknownFieldPolicy" and len(v.args) == 1
+            fallback = ast.unparse(v) == "UnknownFieldPolicy.REJECT" and in_handler
+            ok = from_schema or fallback
+            run.instance(rule, vm.loc(a), f"_validate_section: `{norm(a)}` " + ("converts the schema's UNKNOWN_FIELDS value" if from_schema else ("is the fail-safe for an unparsable value" if fallback else "OVERRIDES the schema's policy")), ok=ok)
+            if not ok:
+                run.violation(rule, vm, vs.qualname, f"{pvar} overridden: {norm(a)[:60]}", f"`{norm(a)[:70]}` replaces the unknown-field policy the schema declares by something else (a caller flag, a constant): under UNKNOWN_FIELDS::WARN an unknown field must only warn and under IGNORE report nothing, whatever profile the caller uses")
     # REQ missing
     req_appends = [n for n in cfg.nodes if n.ast is not None and any(isinstance(c, ast.Call) and ast.unparse(c.func) == "ValidationError" and any(k.arg == "code" and isinstance(k.value, ast.Constant) and k.value.value == "E003" for k in c.keywords) for c in ast.walk(n.ast))]
     ok = len(req_appends) == 1
